@@ -58,115 +58,109 @@ BOUNDED_SIB = "sibling offsets are bounded by the number of siblings held in mem
 VMPC = "vmp_consistent"
 
 SITES = {
-    # ---------------- multi_proof::verify ------------------------------------------------------
-    MP + "verify|call:index|[i]|#1": ("reviewed", "i ranges over 0..multi_proof.paths.len()"),
-    MP + "verify|assert:Overflow:Sub|i - 1|#1": ("reviewed", "under `if i > 0`"),
-    MP + "verify|call:index|[i - 1]|#1": ("reviewed", "under `if i > 0`, i < len"),
-    # ---------------- multi_proof::verify_range ------------------------------------------------
-    MP + "verify_range|assert:BoundsCheck|paths[0]|#1": ("reviewed", "inside `if paths.len() == 1`"),
-    MP + "verify_range|assert:Overflow:Sub|terminal_path.depth - start_depth|#1": ("guarded", "MalformedProof", "sub"),
-    MP + "verify_range|call:index|[start_depth..terminal_path.depth]|#1": ("guarded", "MalformedProof", "end"),
-    MP + "verify_range|call:index|[..unique_len]|#1": ("guarded", "MalformedProof", "end"),
-    MP + "verify_range|assert:Overflow:Add|sibling_offset + unique_len|#1": ("reviewed", BOUNDED_SIB),
-    MP + "verify_range|assert:BoundsCheck|paths[0]|#2": ("reviewed", "paths is non-empty here: the empty range returned above"),
-    MP + "verify_range|assert:Overflow:Sub|paths.len() - 1|#1": ("reviewed", "paths is non-empty here"),
-    MP + "verify_range|assert:BoundsCheck|paths[paths.len() - 1]|#1": ("reviewed", "paths is non-empty here"),
-    MP + "verify_range|call:index|[start_depth..]|#1": ("guarded", "MalformedProof", "start"),
-    MP + "verify_range|call:index|[start_depth..]|#2": ("guarded", "MalformedProof", "start"),
-    MP + "verify_range|assert:Overflow:Add|start_depth + common_bits|#1": ("reviewed", "common_bits <= path length - start_depth <= 256"),
-    MP + "verify_range|assert:Overflow:Add|common_len + 1|#1": ("reviewed", "common_len <= 256"),
-    MP + "verify_range|call:unwrap_err|search_result.unwrap_err()|#1": ("reviewed", "the comparator never returns Ordering::Equal"),
-    MP + "verify_range|assert:Overflow:Add|sibling_offset + common_bits|#1": ("reviewed", BOUNDED_SIB),
-    MP + "verify_range|assert:Overflow:Add|sibling_offset + common_bits|#2": ("reviewed", BOUNDED_SIB),
-    MP + "verify_range|assert:Overflow:Add|sibling_offset + common_bits|#3": ("reviewed", BOUNDED_SIB),
-    MP + "verify_range|assert:Overflow:Add|sibling_offset + common_bits + left_siblings_used|#1": ("reviewed", BOUNDED_SIB),
-    MP + "verify_range|call:index|[..bisect_idx]|#1": ("reviewed", "the Err index of binary_search is <= len"),
-    MP + "verify_range|call:index|[bisect_idx..]|#1": ("reviewed", "the Err index of binary_search is <= len"),
-    MP + "verify_range|call:index|[common_bits..]|#1": ("guarded", "MalformedProof", "start"),
-    MP + "verify_range|assert:Overflow:Add|common_bits + left_siblings_used|#1": ("reviewed", BOUNDED_SIB),
-    MP + "verify_range|assert:Overflow:Add|common_bits + left_siblings_used|#2": ("reviewed", BOUNDED_SIB),
-    MP + "verify_range|assert:Overflow:Add|common_bits + left_siblings_used + right_siblings_used|#1": ("reviewed", BOUNDED_SIB),
-    MP + "verify_range|call:index|[common_bits + left_siblings_used..]|#1": ("reviewed", "a call returns at most the length of the sibling slice it was given (single path: unique_len <= siblings.len() by the MalformedProof guard; bisection: common + left + right, each bounded by the slice it received), so common_bits + left_siblings_used <= siblings.len()"),
-    MP + "verify_range|call:index|[start_depth..common_len]|#1": ("guarded", "MalformedProof", "start"),
-    MP + "verify_range|call:index|[..common_bits]|#1": ("guarded", "MalformedProof", "end"),
-    MP + "verify_range::{closure}|assert:Overflow:Sub|uncommon_start_len - 1|#1": ("reviewed", "uncommon_start_len = common_len + 1 >= 1"),
-    MP + "verify_range::{closure}|call:index|[uncommon_start_len - 1]|#1": ("guarded", "MalformedProof"),
-    # ---------------- VerifiedMultiProof queries -----------------------------------------------
-    MP + "VerifiedMultiProof::find_index_for::{closure}|call:index|[..v.depth]|#1": ("invariant", "vmp_depth"),
-    MP + "VerifiedMultiProof::find_index_for::{closure}|call:index|[..v.depth]|#2": ("invariant", "vmp_depth"),
-    MP + "VerifiedMultiProof::confirm_nonexistence_with_index|call:index|[index]|#1": ("reviewed", "documented caller contract (`# Panics`): the index is chosen by the verifying application (normally the result of find_index_for), never by the prover"),
-    MP + "VerifiedMultiProof::confirm_value_with_index|call:index|[index]|#1": ("reviewed", "documented caller contract (`# Panics`): the index is chosen by the verifying application, never by the prover"),
-    MP + "VerifiedMultiProof::confirm_nonexistence_with_index|call:index|[..depth]|#1": ("invariant", "vmp_depth"),
-    MP + "VerifiedMultiProof::confirm_nonexistence_with_index|call:index|[..depth]|#2": ("invariant", "vmp_depth"),
-    MP + "VerifiedMultiProof::confirm_value_with_index|call:index|[..depth]|#1": ("invariant", "vmp_depth"),
-    MP + "VerifiedMultiProof::confirm_value_with_index|call:index|[..depth]|#2": ("invariant", "vmp_depth"),
-    MP + "VerifiedMultiProof::confirm_nonexistence_inner|call:index|[index]|#1": ("reviewed", "private; reached with an index returned by find_index_for (a binary-search hit) or after the bounds-checked access of the *_with_index caller"),
-    MP + "VerifiedMultiProof::confirm_value_inner|call:index|[index]|#1": ("reviewed", "private; reached with an index returned by find_index_for or after the bounds-checked access of the *_with_index caller"),
-    MP + "terminal_contains|call:index|[..terminal.depth]|#1": ("invariant", "vmp_depth"),
-    MP + "terminal_contains|call:index|[..terminal.depth]|#2": ("invariant", "vmp_depth"),
-    # ---------------- multi_proof::verify_update and helpers -----------------------------------
-    MP + "CommonSiblings::advance|call:index|[self.terminal_index]|#1": ("invariant", VMPC),
-    MP + "CommonSiblings::advance|call:index|[self.bisection_index]|#1": ("invariant", VMPC),
-    MP + "CommonSiblings::advance|assert:Overflow:Add|self.bisection_index += 1|#1": ("reviewed", "counts bisections of the proof"),
-    MP + "CommonSiblings::advance|diverge:assert_failed|assert_eq!(next_bisection.common_siblings.start, self.taken_siblings)|#1": ("invariant", VMPC),
-    MP + "CommonSiblings::advance|assert:Overflow:Add|next_bisection.start_depth + 1|#1": ("reviewed", "start_depth <= 256"),
-    MP + "CommonSiblings::advance|assert:Overflow:Sub|next_terminal.unique_siblings.end - next_terminal.unique_siblings.start|#1": ("invariant", VMPC),
-    MP + "CommonSiblings::advance|assert:Overflow:Sub|next_terminal.depth - terminal_n|#1": ("invariant", VMPC),
-    MP + "CommonSiblings::advance|assert:Overflow:Add|next_terminal.depth - terminal_n + 1|#1": ("reviewed", "depth <= 256"),
-    MP + "CommonSiblings::advance|assert:Overflow:Add|self.terminal_index += 1|#1": ("reviewed", "counts terminals of the proof"),
-    MP + "CommonSiblings::extend|call:index|[self.taken_siblings..end]|#1": ("invariant", VMPC),
-    MP + "CommonSiblings::extend|assert:Overflow:Add|start_depth + i|#1": ("reviewed", "depth + sibling count, both small"),
-    MP + "hash_and_compact_terminal|assert:Overflow:Add|(n + 1)|#1": ("reviewed", "n <= 256"),
-    MP + "hash_and_compact_terminal|assert:Overflow:Sub|skip - (n + 1)|#1": ("guarded", "PathPrefixOfAnother", "sub"),
-    MP + "hash_and_compact_terminal|assert:Overflow:Sub|skip - up_layers|#1": ("reviewed", "up_layers is skip or skip - (n + 1)"),
-    MP + "hash_and_compact_terminal|call:index|[..terminal.depth]|#1": ("invariant", "vmp_depth"),
-    MP + "hash_and_compact_terminal|call:unwrap|pending_siblings.pop().unwrap()|#1": ("reviewed", "`last()` was just observed to be Some"),
-    MP + "hash_and_compact_terminal|call:unwrap|common_siblings.pop_if_at_depth(cur_layer).unwrap()|#1": ("invariant", VMPC),
-    MP + "hash_and_compact_terminal|assert:Overflow:Sub|cur_layer -= 1|#1": ("reviewed", "the loop runs at most up_layers <= skip = initial cur_layer times"),
-    MP + "verify_update|assert:Overflow:Sub|proof.inner.len() - 1|#1": ("reviewed", "inside `for terminal_index in start..proof.inner.len()`: len >= 1"),
-    MP + "verify_update|assert:Overflow:Add|terminal_index + 1|#1": ("reviewed", "terminal_index < len"),
-    MP + "verify_update|call:index|[terminal_index]|#1": ("reviewed", "terminal_index ranges over start..proof.inner.len()"),
-    MP + "verify_update|call:index|[..]|#1": ("reviewed", "RangeFull never panics"),
-    MP + "verify_update::{closure}|call:index|[n]|#1": ("reviewed", "n = terminal_index + 1 only when terminal_index != len - 1"),
-    MP + "verify_update|call:index|[next_terminal_index]|#1": ("guarded", "OpOutOfScope", "idx"),
-    MP + "verify_update|assert:Overflow:Add|next_terminal_index += 1|#1": ("reviewed", "bounded by proof.inner.len() (checked right after)"),
-    MP + "verify_update|call:unwrap|last_terminal_index.unwrap()|#1": ("reviewed", "the `map_or(true, ..)` branch above `continue`d when it was None"),
-    MP + "verify_update|call:index|[terminal_index]|#2": ("reviewed", "terminal_index < updated_index, an index that passed the OpOutOfScope bound check"),
-    MP + "verify_update|assert:Overflow:Add|terminal_index + 1|#2": ("reviewed", "terminal_index < updated_index < len"),
-    MP + "verify_update|call:index|[terminal_index + 1]|#1": ("reviewed", "terminal_index + 1 <= updated_index < len"),
-    MP + "verify_update|call:index|[updated_index]|#1": ("reviewed", "updated_index was a last_terminal_index, which passed the OpOutOfScope bound check"),
-    MP + "verify_update|assert:Overflow:Add|updated_index + 1|#1": ("reviewed", "updated_index < len"),
-    MP + "verify_update|assert:Overflow:Add|updated_index + 1|#2": ("reviewed", "updated_index < len"),
-    # ---------------- path_proof ---------------------------------------------------------------
-    PP + "PathProof::verify|call:index|[..self.siblings.len()]|#1": ("guarded", "TooManySiblings", "end"),
-    PP + "VerifiedPathProof::in_scope|call:index|[..self.key_path.len()]|#1": ("invariant", "vpp_keylen"),
-    PP + "VerifiedPathProof::path|call:index|[..]|#1": ("reviewed", "RangeFull never panics"),
-    PP + "verify_update|assert:Overflow:Sub|i - 1|#1": ("reviewed", "short-circuit `i != 0 &&`"),
-    PP + "verify_update|assert:BoundsCheck|paths[i - 1]|#1": ("reviewed", "short-circuit `i != 0 &&`, i < len"),
-    PP + "verify_update|assert:Overflow:Sub|j - 1|#1": ("reviewed", "short-circuit `j != 0 &&`"),
-    PP + "verify_update|call:index|[j - 1]|#1": ("reviewed", "short-circuit `j != 0 &&`, j < len"),
-    PP + "verify_update|assert:Overflow:Add|i + 1|#1": ("reviewed", "i < paths.len()"),
-    PP + "verify_update|assert:Overflow:Add|(n + 1)|#1": ("reviewed", "n <= 256"),
-    PP + "verify_update|assert:Overflow:Sub|skip - (n + 1)|#1": ("reviewed", "cryptographic: n == skip needs two paths verified against one root where one terminal lies below the other, i.e. a collision between an internal-node hash and a leaf/terminator (domain-separated by the MSB); paths are checked to be strictly ascending"),
-    PP + "verify_update|assert:Overflow:Sub|skip - up_layers|#1": ("reviewed", "up_layers is skip or skip - (n + 1)"),
-    PP + "verify_update|call:unwrap|pending_siblings.pop().unwrap()|#1": ("reviewed", "`last()` was just observed to be Some"),
-    PP + "verify_update|assert:Overflow:Sub|cur_layer -= 1|#1": ("reviewed", "the loop runs at most up_layers <= skip times"),
-    PP + "verify_update|call:unwrap|pending_siblings.pop().map(|n| n.0).unwrap()|#1": ("reviewed", "paths is non-empty (early return above) and every iteration pushes"),
-    "trie_pos::TriePosition::path|call:index|[..self.depth as usize]|#1": ("invariant", "triepos_depth"),
-    # ---------------- update.rs (sub-trie builder used by both update verifiers) -----------------
-    "update::leaf_ops_spliced|call:index|[..splice_index]|#1": ("reviewed", "splice_index is the Err index of binary_search (<= len) or 0"),
-    "update::leaf_ops_spliced|call:index|[splice_index..]|#1": ("reviewed", "splice_index is the Err index of binary_search (<= len) or 0"),
-    "update::build_trie::{closure}|call:index|[skip..]|#1": ("reviewed", "skip is the depth of a verified terminal (<= 256, invariants vpp_keylen / vmp_depth); a key has 256 bits"),
-    "update::build_trie::{closure}|call:index|[skip..]|#2": ("reviewed", "skip <= 256"),
-    "update::build_trie|assert:Overflow:Add|n1 + 1|#1": ("reviewed", "n <= 256"),
-    "update::build_trie|assert:Overflow:Add|n1 + 1|#2": ("reviewed", "n <= 256"),
-    "update::build_trie|assert:Overflow:Add|n2 + 1|#1": ("reviewed", "n <= 256"),
-    "update::build_trie|assert:Overflow:Add|core::cmp::max(n1, n2) + 1|#1": ("reviewed", "n <= 256"),
-    "update::build_trie|assert:Overflow:Add|skip + n1.unwrap_or(0)|#1": ("reviewed", "skip, n <= 256"),
-    "update::build_trie|assert:Overflow:Add|skip + leaf_depth|#1": ("reviewed", "skip, leaf_depth <= 257"),
-    "update::build_trie|call:index|[down_start..leaf_end_bit]|#1": ("precondition", "ops_strictly_ascending", "keys are strictly ascending (OpsOutOfOrder guards in both update verifiers) hence distinct, so two neighbours share at most 255 - skip bits after the prefix: leaf_end_bit = skip + max(n) + 1 <= 256; down_start = skip + n1 <= leaf_end_bit"),
-    "update::build_trie|call:index|[skip..leaf_end_bit]|#1": ("precondition", "ops_strictly_ascending", "leaf_end_bit <= 256 as above, skip <= leaf_end_bit"),
-    "update::build_trie|assert:Overflow:Sub|layer -= 1|#1": ("reviewed", "hash_up_layers <= leaf_depth = initial layer"),
-    "update::build_trie|call:unwrap|pending_siblings.pop().unwrap()|#1": ("reviewed", "`last()` was just observed to be Some"),
-    "update::build_trie::{closure}|assert:Overflow:Add|layer + 1|#1": ("reviewed", "layer <= 256"),
+    'proof::multi_proof::CommonSiblings::advance|call:index|[self.$1]|#1': ('invariant', 'vmp_consistent'),
+    'proof::multi_proof::CommonSiblings::advance|call:index|[self.$1]|#2': ('invariant', 'vmp_consistent'),
+    'proof::multi_proof::CommonSiblings::advance|assert:Overflow:Add|self.$1 += 1|#1': ('reviewed', 'counts bisections of the proof'),
+    'proof::multi_proof::CommonSiblings::advance|diverge:assert_failed|assert_eq!($1.$2.$3, self.$4)|#1': ('invariant', 'vmp_consistent'),
+    'proof::multi_proof::CommonSiblings::advance|assert:Overflow:Add|$1.$2 + 1|#1': ('reviewed', 'start_depth <= 256'),
+    'proof::multi_proof::CommonSiblings::advance|assert:Overflow:Sub|$1.$2.$3 - $1.$2.$4|#1': ('invariant', 'vmp_consistent'),
+    'proof::multi_proof::CommonSiblings::advance|assert:Overflow:Sub|$1.$2 - $3|#1': ('invariant', 'vmp_consistent'),
+    'proof::multi_proof::CommonSiblings::advance|assert:Overflow:Add|$1.$2 - $3 + 1|#1': ('reviewed', 'depth <= 256'),
+    'proof::multi_proof::CommonSiblings::advance|assert:Overflow:Add|self.$1 += 1|#2': ('reviewed', 'counts terminals of the proof'),
+    'proof::multi_proof::CommonSiblings::extend|call:index|[self.$1..$2]|#1': ('invariant', 'vmp_consistent'),
+    'proof::multi_proof::CommonSiblings::extend|assert:Overflow:Add|$1 + $2|#1': ('reviewed', 'depth + sibling count, both small'),
+    'proof::multi_proof::VerifiedMultiProof::confirm_nonexistence_inner|call:index|[$1]|#1': ('reviewed', 'private; reached with an index returned by find_index_for (a binary-search hit) or after the bounds-checked access of the *_with_index caller'),
+    'proof::multi_proof::VerifiedMultiProof::confirm_nonexistence_with_index|call:index|[$1]|#1': ('reviewed', 'documented caller contract (`# Panics`): the index is chosen by the verifying application (normally the result of find_index_for), never by the prover'),
+    'proof::multi_proof::VerifiedMultiProof::confirm_nonexistence_with_index|call:index|[..$1]|#1': ('invariant', 'vmp_depth'),
+    'proof::multi_proof::VerifiedMultiProof::confirm_nonexistence_with_index|call:index|[..$1]|#2': ('invariant', 'vmp_depth'),
+    'proof::multi_proof::VerifiedMultiProof::confirm_value_inner|call:index|[$1]|#1': ('reviewed', 'private; reached with an index returned by find_index_for or after the bounds-checked access of the *_with_index caller'),
+    'proof::multi_proof::VerifiedMultiProof::confirm_value_with_index|call:index|[$1]|#1': ('reviewed', 'documented caller contract (`# Panics`): the index is chosen by the verifying application, never by the prover'),
+    'proof::multi_proof::VerifiedMultiProof::confirm_value_with_index|call:index|[..$1]|#1': ('invariant', 'vmp_depth'),
+    'proof::multi_proof::VerifiedMultiProof::confirm_value_with_index|call:index|[..$1]|#2': ('invariant', 'vmp_depth'),
+    'proof::multi_proof::VerifiedMultiProof::find_index_for::{closure}|call:index|[..$1.$2]|#1': ('invariant', 'vmp_depth'),
+    'proof::multi_proof::VerifiedMultiProof::find_index_for::{closure}|call:index|[..$1.$2]|#2': ('invariant', 'vmp_depth'),
+    'proof::multi_proof::hash_and_compact_terminal|assert:Overflow:Add|($1 + 1)|#1': ('reviewed', 'n <= 256'),
+    'proof::multi_proof::hash_and_compact_terminal|assert:Overflow:Sub|$1 - ($2 + 1)|#1': ('guarded', 'PathPrefixOfAnother', 'sub'),
+    'proof::multi_proof::hash_and_compact_terminal|assert:Overflow:Sub|$1 - $2|#1': ('reviewed', 'up_layers is skip or skip - (n + 1)'),
+    'proof::multi_proof::hash_and_compact_terminal|call:index|[..$1.$2]|#1': ('invariant', 'vmp_depth'),
+    'proof::multi_proof::hash_and_compact_terminal|call:unwrap|$1.pop().unwrap()|#1': ('reviewed', '`last()` was just observed to be Some'),
+    'proof::multi_proof::hash_and_compact_terminal|call:unwrap|$1.$2($3).unwrap()|#1': ('invariant', 'vmp_consistent'),
+    'proof::multi_proof::hash_and_compact_terminal|assert:Overflow:Sub|$1 -= 1|#1': ('reviewed', 'the loop runs at most up_layers <= skip = initial cur_layer times'),
+    'proof::multi_proof::terminal_contains|call:index|[..$1.$2]|#1': ('invariant', 'vmp_depth'),
+    'proof::multi_proof::terminal_contains|call:index|[..$1.$2]|#2': ('invariant', 'vmp_depth'),
+    'proof::multi_proof::verify|call:index|[$1]|#1': ('reviewed', 'i ranges over 0..multi_proof.paths.len()'),
+    'proof::multi_proof::verify|assert:Overflow:Sub|$1 - 1|#1': ('reviewed', 'under `if i > 0`'),
+    'proof::multi_proof::verify|call:index|[$1 - 1]|#1': ('reviewed', 'under `if i > 0`, i < len'),
+    'proof::multi_proof::verify_range|assert:BoundsCheck|$1[0]|#1': ('reviewed', 'inside `if paths.len() == 1`'),
+    'proof::multi_proof::verify_range|assert:Overflow:Sub|$1.$2 - $3|#1': ('guarded', 'MalformedProof', 'sub'),
+    'proof::multi_proof::verify_range|call:index|[$1..$2.$3]|#1': ('guarded', 'MalformedProof', 'end'),
+    'proof::multi_proof::verify_range|call:index|[..$1]|#1': ('guarded', 'MalformedProof', 'end'),
+    'proof::multi_proof::verify_range|assert:Overflow:Add|$1 + $2|#1': ('reviewed', 'sibling offsets are bounded by the number of siblings held in memory (a Vec length), far below usize::MAX'),
+    'proof::multi_proof::verify_range|assert:BoundsCheck|$1[0]|#2': ('reviewed', 'paths is non-empty here: the empty range returned above'),
+    'proof::multi_proof::verify_range|assert:Overflow:Sub|$1.len() - 1|#1': ('reviewed', 'paths is non-empty here'),
+    'proof::multi_proof::verify_range|assert:BoundsCheck|$1[$1.len() - 1]|#1': ('reviewed', 'paths is non-empty here'),
+    'proof::multi_proof::verify_range|call:index|[$1..]|#1': ('guarded', 'MalformedProof', 'start'),
+    'proof::multi_proof::verify_range|call:index|[$1..]|#2': ('guarded', 'MalformedProof', 'start'),
+    'proof::multi_proof::verify_range|assert:Overflow:Add|$1 + $2|#2': ('reviewed', 'common_bits <= path length - start_depth <= 256'),
+    'proof::multi_proof::verify_range|assert:Overflow:Add|$1 + 1|#1': ('reviewed', 'common_len <= 256'),
+    'proof::multi_proof::verify_range|call:unwrap_err|$1.unwrap_err()|#1': ('reviewed', 'the comparator never returns Ordering::Equal'),
+    'proof::multi_proof::verify_range|assert:Overflow:Add|$1 + $2|#3': ('reviewed', 'sibling offsets are bounded by the number of siblings held in memory (a Vec length), far below usize::MAX'),
+    'proof::multi_proof::verify_range|call:index|[..$1]|#2': ('reviewed', 'the Err index of binary_search is <= len'),
+    'proof::multi_proof::verify_range|call:index|[$1..]|#1': ('guarded', 'MalformedProof', 'start'),
+    'proof::multi_proof::verify_range|assert:Overflow:Add|$1 + $2|#4': ('reviewed', 'sibling offsets are bounded by the number of siblings held in memory (a Vec length), far below usize::MAX'),
+    'proof::multi_proof::verify_range|call:index|[$1..]|#2': ('reviewed', 'the Err index of binary_search is <= len'),
+    'proof::multi_proof::verify_range|assert:Overflow:Add|$1 + $2|#5': ('reviewed', 'sibling offsets are bounded by the number of siblings held in memory (a Vec length), far below usize::MAX'),
+    'proof::multi_proof::verify_range|call:index|[$1 + $2..]|#1': ('reviewed', 'a call returns at most the length of the sibling slice it was given (single path: unique_len <= siblings.len() by the MalformedProof guard; bisection: common + left + right, each bounded by the slice it received), so common_bits + left_siblings_used <= siblings.len()'),
+    'proof::multi_proof::verify_range|assert:Overflow:Add|$1 + $2|#6': ('reviewed', 'sibling offsets are bounded by the number of siblings held in memory (a Vec length), far below usize::MAX'),
+    'proof::multi_proof::verify_range|assert:Overflow:Add|$1 + $2 + $3|#1': ('reviewed', 'sibling offsets are bounded by the number of siblings held in memory (a Vec length), far below usize::MAX'),
+    'proof::multi_proof::verify_range|assert:Overflow:Add|$1 + $2|#7': ('reviewed', 'sibling offsets are bounded by the number of siblings held in memory (a Vec length), far below usize::MAX'),
+    'proof::multi_proof::verify_range|assert:Overflow:Add|$1 + $2 + $3|#2': ('reviewed', 'sibling offsets are bounded by the number of siblings held in memory (a Vec length), far below usize::MAX'),
+    'proof::multi_proof::verify_range|call:index|[$1..$2]|#1': ('guarded', 'MalformedProof', 'start'),
+    'proof::multi_proof::verify_range|call:index|[..$1]|#3': ('guarded', 'MalformedProof', 'end'),
+    'proof::multi_proof::verify_range::{closure}|assert:Overflow:Sub|$1 - 1|#1': ('reviewed', 'uncommon_start_len = common_len + 1 >= 1'),
+    'proof::multi_proof::verify_range::{closure}|call:index|[$1 - 1]|#1': ('guarded', 'MalformedProof'),
+    'proof::multi_proof::verify_update|assert:Overflow:Sub|$1.$2.len() - 1|#1': ('reviewed', 'inside `for terminal_index in start..proof.inner.len()`: len >= 1'),
+    'proof::multi_proof::verify_update|assert:Overflow:Add|$1 + 1|#1': ('reviewed', 'terminal_index < len'),
+    'proof::multi_proof::verify_update|call:index|[$1]|#1': ('reviewed', 'terminal_index ranges over start..proof.inner.len()'),
+    'proof::multi_proof::verify_update|call:index|[..]|#1': ('reviewed', 'RangeFull never panics'),
+    'proof::multi_proof::verify_update|call:index|[$1]|#2': ('guarded', 'OpOutOfScope', 'idx'),
+    'proof::multi_proof::verify_update|assert:Overflow:Add|$1 += 1|#1': ('reviewed', 'bounded by proof.inner.len() (checked right after)'),
+    'proof::multi_proof::verify_update|call:unwrap|$1.unwrap()|#1': ('reviewed', 'the `map_or(true, ..)` branch above `continue`d when it was None'),
+    'proof::multi_proof::verify_update|call:index|[$1]|#3': ('reviewed', 'terminal_index < updated_index, an index that passed the OpOutOfScope bound check'),
+    'proof::multi_proof::verify_update|assert:Overflow:Add|$1 + 1|#2': ('reviewed', 'terminal_index < updated_index < len'),
+    'proof::multi_proof::verify_update|call:index|[$1 + 1]|#1': ('reviewed', 'terminal_index + 1 <= updated_index < len'),
+    'proof::multi_proof::verify_update|call:index|[$1]|#4': ('reviewed', 'updated_index was a last_terminal_index, which passed the OpOutOfScope bound check'),
+    'proof::multi_proof::verify_update|assert:Overflow:Add|$1 + 1|#3': ('reviewed', 'updated_index < len'),
+    'proof::multi_proof::verify_update|assert:Overflow:Add|$1 + 1|#4': ('reviewed', 'updated_index < len'),
+    'proof::multi_proof::verify_update::{closure}|call:index|[$1]|#1': ('reviewed', 'n = terminal_index + 1 only when terminal_index != len - 1'),
+    'proof::path_proof::PathProof::verify|call:index|[..self.$1.len()]|#1': ('guarded', 'TooManySiblings', 'end'),
+    'proof::path_proof::VerifiedPathProof::in_scope|call:index|[..self.$1.len()]|#1': ('invariant', 'vpp_keylen'),
+    'proof::path_proof::VerifiedPathProof::path|call:index|[..]|#1': ('reviewed', 'RangeFull never panics'),
+    'proof::path_proof::verify_update|assert:Overflow:Sub|$1 - 1|#1': ('reviewed', 'short-circuit `i != 0 &&`'),
+    'proof::path_proof::verify_update|assert:BoundsCheck|$1[$2 - 1]|#1': ('reviewed', 'short-circuit `i != 0 &&`, i < len'),
+    'proof::path_proof::verify_update|assert:Overflow:Sub|$1 - 1|#2': ('reviewed', 'short-circuit `j != 0 &&`'),
+    'proof::path_proof::verify_update|call:index|[$1 - 1]|#1': ('reviewed', 'short-circuit `j != 0 &&`, j < len'),
+    'proof::path_proof::verify_update|assert:Overflow:Add|$1 + 1|#1': ('reviewed', 'i < paths.len()'),
+    'proof::path_proof::verify_update|assert:Overflow:Add|($1 + 1)|#1': ('reviewed', 'n <= 256'),
+    'proof::path_proof::verify_update|assert:Overflow:Sub|$1 - ($2 + 1)|#1': ('reviewed', 'cryptographic: n == skip needs two paths verified against one root where one terminal lies below the other, i.e. a collision between an internal-node hash and a leaf/terminator (domain-separated by the MSB); paths are checked to be strictly ascending'),
+    'proof::path_proof::verify_update|assert:Overflow:Sub|$1 - $2|#1': ('reviewed', 'up_layers is skip or skip - (n + 1)'),
+    'proof::path_proof::verify_update|call:unwrap|$1.pop().unwrap()|#1': ('reviewed', '`last()` was just observed to be Some'),
+    'proof::path_proof::verify_update|assert:Overflow:Sub|$1 -= 1|#1': ('reviewed', 'the loop runs at most up_layers <= skip times'),
+    'proof::path_proof::verify_update|call:unwrap|$1.pop().map(|$2| $2.0).unwrap()|#1': ('reviewed', 'paths is non-empty (early return above) and every iteration pushes'),
+    'trie_pos::TriePosition::path|call:index|[..self.$1 as usize]|#1': ('invariant', 'triepos_depth'),
+    'update::build_trie|assert:Overflow:Add|$1 + 1|#1': ('reviewed', 'n <= 256'),
+    'update::build_trie|assert:Overflow:Add|$1 + 1|#2': ('reviewed', 'n <= 256'),
+    'update::build_trie|assert:Overflow:Add|$1 + 1|#3': ('reviewed', 'n <= 256'),
+    'update::build_trie|assert:Overflow:Add|$1::$2::$3($4, $5) + 1|#1': ('reviewed', 'n <= 256'),
+    'update::build_trie|assert:Overflow:Add|$1 + $2.$3(0)|#1': ('reviewed', 'skip, n <= 256'),
+    'update::build_trie|assert:Overflow:Add|$1 + $2|#1': ('reviewed', 'skip, leaf_depth <= 257'),
+    'update::build_trie|call:index|[$1..$2]|#1': ('precondition', 'ops_strictly_ascending', 'keys are strictly ascending (OpsOutOfOrder guards in both update verifiers) hence distinct, so two neighbours share at most 255 - skip bits after the prefix: leaf_end_bit = skip + max(n) + 1 <= 256; down_start = skip + n1 <= leaf_end_bit'),
+    'update::build_trie|call:index|[$1..$2]|#2': ('precondition', 'ops_strictly_ascending', 'leaf_end_bit <= 256 as above, skip <= leaf_end_bit'),
+    'update::build_trie|assert:Overflow:Sub|$1 -= 1|#1': ('reviewed', 'hash_up_layers <= leaf_depth = initial layer'),
+    'update::build_trie|call:unwrap|$1.pop().unwrap()|#1': ('reviewed', '`last()` was just observed to be Some'),
+    'update::build_trie::{closure}|call:index|[$1..]|#1': ('reviewed', 'skip is the depth of a verified terminal (<= 256, invariants vpp_keylen / vmp_depth); a key has 256 bits'),
+    'update::build_trie::{closure}|call:index|[$1..]|#2': ('reviewed', 'skip <= 256'),
+    'update::build_trie::{closure}|assert:Overflow:Add|$1 + 1|#1': ('reviewed', 'layer <= 256'),
+    'update::leaf_ops_spliced|call:index|[..$1]|#1': ('reviewed', 'splice_index is the Err index of binary_search (<= len) or 0'),
+    'update::leaf_ops_spliced|call:index|[$1..]|#1': ('reviewed', 'splice_index is the Err index of binary_search (<= len) or 0'),
 }
